@@ -853,6 +853,15 @@ type profCase struct {
 	Pos       int    `json:"segment"`   // 1..3
 	Start     hm     `json:"start"`
 	End       hm     `json:"end"`
+	// Others: what the two segments not being varied hold - "" two ordinary ones (fillers), "unused"
+	// 00:00-00:00, "instant" 12:00-12:00, "whole-day" 00:00-24:00
+	Others string `json:"other_segments,omitempty"`
+}
+
+var otherSegments = map[string]types.Segment{
+	"unused":    {Start: types.NewHHmm(0, 0), End: types.NewHHmm(0, 0)},
+	"instant":   {Start: types.NewHHmm(12, 0), End: types.NewHHmm(12, 0)},
+	"whole-day": {Start: types.NewHHmm(0, 0), End: types.NewHHmm(24, 0)},
 }
 
 func newClient(transport string) (uhppote.IUHPPOTE, *drv.Fake) {
@@ -891,6 +900,8 @@ func checkProfile(r *vk.Run, u uhppote.IUHPPOTE, f *drv.Fake, c profCase) {
 	for k := 1; k <= 3; k++ {
 		if k == c.Pos {
 			segments[uint8(k)] = types.Segment{Start: c.Start.lib(), End: c.End.lib()}
+		} else if o, ok := otherSegments[c.Others]; ok {
+			segments[uint8(k)] = o
 		} else {
 			segments[uint8(k)] = fillers[fill]
 			fill++
@@ -913,7 +924,7 @@ func checkProfile(r *vk.Run, u uhppote.IUHPPOTE, f *drv.Fake, c profCase) {
 	}
 	sent := f.NumCalls()
 	accept := refHHmm(c.End, c.Start) >= 0 // end is not before start
-	desc := fmt.Sprintf("segment %d = %v-%v over %s: SetTimeProfile = (%v, %v), requests sent = %d", c.Pos, c.Start, c.End, c.Transport, ok, err, sent)
+	desc := fmt.Sprintf("segment %d = %v-%v (other segments: %q) over %s: SetTimeProfile = (%v, %v), requests sent = %d", c.Pos, c.Start, c.End, c.Others, c.Transport, ok, err, sent)
 	switch {
 	case accept && sent == 0 && err != nil:
 		r.Violation("C16/SetTimeProfile/rejects-end-not-before-start", desc+"; the end is not before the start, so the profile must be sent", "profile", c)
@@ -948,7 +959,7 @@ func runProfiles(r *vk.Run) {
 			u, f := newClient(tr)
 			var acc int64
 			for _, e := range all {
-				checkProfile(r, u, f, profCase{tr, pos, s, e})
+				checkProfile(r, u, f, profCase{tr, pos, s, e, ""})
 				if refHHmm(e, s) >= 0 {
 					acc++
 				}
@@ -958,7 +969,25 @@ func runProfiles(r *vk.Run) {
 			rejected.Add(int64(len(all)) - acc)
 		})
 	}
-	n := int64(len(transports)) * 3 * int64(len(all)) * int64(len(all))
+	// the verdict on one segment does not depend on what the other two hold: the boundary set x itself
+	// for each position with the others unused (00:00-00:00), a single instant, the whole day
+	bs := hhmmBoundary(r.Thorough())
+	var extra int64
+	{
+		u, f := newClient("broadcast")
+		for _, others := range []string{"unused", "instant", "whole-day"} {
+			for pos := 1; pos <= 3; pos++ {
+				for _, s := range bs {
+					for _, e := range bs {
+						checkProfile(r, u, f, profCase{"broadcast", pos, s, e, others})
+						extra++
+					}
+				}
+			}
+		}
+		r.Count(extra)
+	}
+	n := int64(len(transports))*3*int64(len(all))*int64(len(all)) + extra
 	r.Distinct(n)
 	r.Set("profile_cases", n)
 	r.Set("profile_must_accept", accepted.Load())
